@@ -48,6 +48,59 @@ def _is_setish(ctx, fi: FuncInfo, e: ast.AST) -> bool:
     return bool(t)
 
 
+def _lookup_table_only(prog, fi: FuncInfo, target: ast.Subscript, tvars: set, depth: int = 0) -> bool:
+    """``target`` is `table[key(elem)] = …` into a local dict that is used for lookups only (also by the callers it is returned
+    to): its insertion order is never observed."""
+    if not (isinstance(target.value, ast.Name) and any(isinstance(x, ast.Name) and x.id in tvars for x in ast.walk(target.slice))):
+        return False
+    name = target.value.id
+    if name in fi.params():
+        return False
+    defs = [st.value for st in walk_no_nested(fi.node) if isinstance(st, (ast.Assign, ast.AnnAssign)) and getattr(st, "value", None) is not None
+            and any(isinstance(t_, ast.Name) and t_.id == name for t_ in (st.targets if isinstance(st, ast.Assign) else [st.target]))]
+    if len(defs) != 1 or not (isinstance(defs[0], ast.Dict) and not defs[0].keys or (isinstance(defs[0], ast.Call) and call_name(defs[0]) == "dict" and not defs[0].args)):
+        return False
+
+    def lookups_only(f_: FuncInfo, nm: str) -> bool:
+        for x in walk_no_nested(f_.node):
+            if isinstance(x, ast.Name) and x.id == nm and isinstance(x.ctx, ast.Load):
+                p_ = prog.parent(x)
+                if isinstance(p_, ast.Subscript) and p_.value is x:
+                    continue
+                if isinstance(p_, ast.Compare) and x in p_.comparators and all(isinstance(o_, (ast.In, ast.NotIn)) for o_ in p_.ops):
+                    continue
+                if isinstance(p_, ast.Attribute) and p_.attr in ("get",):
+                    continue
+                if isinstance(p_, ast.Call) and x in p_.args and isinstance(p_.func, ast.Attribute) and p_.func.attr == "translate":
+                    continue
+                if isinstance(p_, ast.Return) and f_ is fi and depth < 1:
+                    continue  # judged at the callers below
+                return False
+        return True
+    if not lookups_only(fi, name):
+        return False
+    returned = any(isinstance(x, ast.Return) and isinstance(x.value, ast.Name) and x.value.id == name for x in walk_no_nested(fi.node))
+    if returned:
+        if fi.cls is None or not fi.name.startswith("_"):
+            return False
+        sites = 0
+        for g in prog.funcs.values():
+            if g.cls is None or not (prog.is_subclass(g.cls.qual, fi.cls.qual) or prog.is_subclass(fi.cls.qual, g.cls.qual)):
+                continue
+            for c_ in walk_no_nested(g.node):
+                if isinstance(c_, ast.Call) and isinstance(c_.func, ast.Attribute) and c_.func.attr == fi.name:
+                    sites += 1
+                    pa = prog.parent(c_)
+                    if isinstance(pa, ast.Assign) and len(pa.targets) == 1 and isinstance(pa.targets[0], ast.Name):
+                        if not lookups_only(g, pa.targets[0].id) or any(isinstance(x, ast.Return) and isinstance(x.value, ast.Name) and x.value.id == pa.targets[0].id for x in walk_no_nested(g.node)):
+                            return False
+                    elif not (isinstance(pa, ast.Call) and isinstance(pa.func, ast.Attribute) and pa.func.attr == "translate"):
+                        return False
+        if sites == 0:
+            return False
+    return True
+
+
 def _loop_insensitive(prog, fi: FuncInfo, loop: ast.For) -> Optional[str]:
     """Reason why the body of a for-loop over a set cannot observe the iteration order, else None."""
     tvars = {n.id for n in ast.walk(loop.target) if isinstance(n, ast.Name)}
@@ -72,7 +125,11 @@ def _loop_insensitive(prog, fi: FuncInfo, loop: ast.For) -> Optional[str]:
                         if used_after:
                             return None
                     if isinstance(t, ast.Subscript):
-                        # dict/list item assignment keyed by the loop variable: insertion order follows the set
+                        # dict/list item assignment keyed by the loop variable: insertion order follows the set — unless the
+                        # map is a lookup table only: keyed by the element (one entry each), never iterated or printed, and
+                        # handed to nothing but lookups (str.translate, subscripts, membership)
+                        if _lookup_table_only(prog, fi, t, tvars):
+                            continue
                         return None
                     if isinstance(t, ast.Attribute):
                         # attribute store inside a set loop: last wins unless the receiver is the loop element itself
